@@ -446,8 +446,8 @@ MANIFEST = dict(
          'Recover: fsrecover executed by CrossHair on inputs whose truncation length is symbolic, and on inputs whose '
          'damaged region (offset) is chosen by the solver with length/byte-class shards; an independent parser judges that '
          'the tool terminates, keeps everything before the damage and emits only unchanged input transactions in order.',
-    note='damage = one region (truncation, or 1/4 replaced bytes of 8 classes) - for replaced bytes the solver enumerates '
-         'offsets and fsrecover runs on the concrete file (selector mode, stated); blob copying (copyTransactionsFromTo) is '
-         'not driven; read budget 60 ops/byte stands for termination.',
+    note='damage = one region (truncation, 1/4/8 replaced bytes of 8 classes, or 64/200 zero / 0xff bytes) - for replaced bytes the solver enumerates '
+         'offsets and fsrecover runs on the concrete file (selector mode, stated); blob copying (copyTransactionsFromTo) is driven by '
+         'blob_copy on a real scratch directory; MappingStorage sources M1-M3; read budget 60 ops/byte stands for termination.',
     design_ref='DESIGN.md section 4, C17',
 )
